@@ -209,7 +209,32 @@ def rule_P2(repo: Repo) -> RuleResult:
                     "counts (counts aggregated with 'sum'); otherwise 'All' rows are means of means or divide by unmargined counts")
     if n < 1:
         raise AnalysisError("P2: no path with margins and mean found in _apply_gb_reduction")
-    res.analysed = {"paths": n}
+    # mean = sum / count on EVERY returning path of a mean (transform included), exactly once
+    m = 0
+    seen2 = set()
+    for p in paths:
+        if p.exit != "return":
+            continue
+        is_transform = None
+        for tv in (True, False):
+            if consistent(p, {"func_is_mean": True, "transform": tv}, set()):
+                is_transform = tv
+        if is_transform is None:
+            continue
+        m += 1
+        k = sum(1 for st in p.stmts for c in _calls_in_stmt(st) if norm(c.func).endswith("mean_from_sum_count"))
+        key = (k, is_transform)
+        if key in seen2:
+            continue
+        seen2.add(key)
+        construct = f"mean, {'transform' if is_transform else 'per-group'} return: {k} division(s) by the count"
+        if k == 1:
+            res.ok(f, p.exit_node, construct, "mean is sum divided by count")
+        else:
+            res.bad(f, p.exit_node, construct,
+                    "a mean is returned on this path without (or with more than one) division of the sums by the counts: "
+                    "the result is the group sum", path=p.describe()[:160])
+    res.analysed = {"paths_with_margins": n, "mean_paths": m}
     return res
 
 
